@@ -372,9 +372,8 @@ def check(prop, tier, seed, only=None, keep=False, jobs=0):
             for o in kani_obs:
                 meta = metas.get(o.crate, {}).get(o.harness)
                 if meta is None:
-                    if metas.get(o.crate):
-                        inconclusive.append(f"harness {o.name} not found in compiled crate")
-                        say(f"[{o.name}] NOT FOUND among {len(metas[o.crate])} compiled harnesses")
+                    inconclusive.append(f"harness {o.name} not found among the {len(metas.get(o.crate, {}))} harnesses compiled in this run")
+                    say(f"[{o.name}] NOT FOUND among {len(metas.get(o.crate, {}))} compiled harnesses")
                     continue
                 futs[ex.submit(run_kani_obligation, o, meta, workroot, budget, keep)] = o
             for o in other_obs:
@@ -480,6 +479,9 @@ def conclude(prop, tier, seed, spec, results, inconclusive, build_s, t0, write_e
         write_evidence_file(prop, tier, seed, spec, results, known_hits, violations, inconclusive, build_s, wall)
     if violations:
         return 1
+    if not results:
+        inconclusive.append("no obligation was discharged")
+        say("[inconclusive] no obligation was discharged")
     if inconclusive:
         return 2
     say(f"OK property={prop} tier={tier}: {sum(r.get('checks', 0) for r in results)} solver-checked conditions in "
